@@ -1,3 +1,4 @@
+import LachesisVerif.Gen.FactsC17w
 import LachesisVerif.Gen.FactsC17
 /-!
 # Structural expectations for C17 (regenerated facts `Gen.FactsC17`)
@@ -28,3 +29,11 @@ theorem chunk_structure :
     Gen.FactsC17.waitBeforeProduce = true ∧ Gen.FactsC17.pendingCountedBeforeSend = true := by decide
 
 end FactsC17
+
+/-- `utils/workers`: the sender threads are bounded FIFO queues — `Enqueue` neither starts a goroutine nor
+    has a non-blocking `default` branch (a full queue blocks the reader loop: back-pressure, nothing
+    overtakes), tasks run on the goroutines started by `Start`. `Model.Seeder` sends the responses of one
+    session in production order on this assumption ("in order and without gaps or repeats"). -/
+theorem FactsC17.sender_queue_fifo :
+    Gen.FactsC17w.enqueueSpawns = false ∧ Gen.FactsC17w.enqueueNonBlocking = false ∧
+    Gen.FactsC17w.startSpawnsWorkers = true ∧ Gen.FactsC17w.workerRunsJobs = true := by decide
